@@ -220,6 +220,49 @@ def verbDecode (fields : List Sexp) : String :=
     | .ok _ => "ok"
     | .error _ => "reject"
 
+def decParams (fields : List Sexp) : Grammar.Params :=
+  match field "params" fields with
+  | none => []
+  | some entries => entries.filterMap fun
+    | .list [.atom n, t] => do
+      let nb ← decodeHex n
+      let tm ← decTerm t
+      pure (String.ofList (nb.map fun b => Char.ofNat b.toNat), tm)
+    | _ => none
+
+def encPolicySx (p : Policy) : String :=
+  tagged (match p.kind with | .allow => "allow" | .deny => "deny") (p.queries.map encRuleSx)
+
+def encParsed (c : Grammar.ParsedContent) : String :=
+  "ok " ++ tagged "facts" (c.facts.map encPredSx) ++ " " ++ tagged "rules" (c.rules.map encRuleSx) ++ " " ++
+    tagged "checks" (c.checks.map encCheckSx) ++ " " ++ tagged "policies" (c.policies.map encPolicySx)
+
+def utf8Chars (b : Bytes) : List Char := (String.fromUTF8! (ByteArray.mk b.toArray)).toList
+
+/-- PARSE: (case (kind block|authorizer|single) (text xHEX) (params (xNAME term)…)) -/
+def verbParse (fields : List Sexp) : String :=
+  match bytesField "text" fields, field "kind" fields with
+  | some tb, some [.atom kind] =>
+    let cs := utf8Chars tb
+    let ps := decParams fields
+    let items := match kind with
+      | "block" => Grammar.parseBlockText cs
+      | "authorizer" => Grammar.parseAuthorizerText cs
+      | _ => (Grammar.parseSingleText cs).map fun it => [it]
+    match items.bind (Grammar.denoteItems ps) with
+    | some c => encParsed c
+    | none => "error"
+  | _, _ => "bad-case"
+
+/-- PRINT: (case (block …)) — the text `Biscuit.Code()` shows for this block. -/
+def verbPrint (fields : List Sexp) : String :=
+  match fields.findSome? (fun f => decBlock f) with
+  | none => "bad-case"
+  | some b =>
+    let facts : List (Pred Val) := b.facts.map fun f => { name := f.name, terms := f.args.map Term.const }
+    let txt := Printer.printBlockCode facts b.rules b.checks
+    "text " ++ encodeHex (String.ofList txt).toUTF8.toList
+
 /-- First pass: which external answers does the case need? -/
 def needOf (verb : String) (sx : Sexp) : Option String :=
   match verb, sx with
@@ -247,6 +290,8 @@ def runVerb (verb : String) (sx : Sexp) : String :=
     | "CHAIN" => verbChain fields
     | "RNG" => verbRng fields
     | "DECODE" => verbDecode fields
+    | "PARSE" => verbParse fields
+    | "PRINT" => verbPrint fields
     | "SNAP" => verbSnap fields
     | _ => "bad-verb"
   | _ => "bad-case"
